@@ -567,7 +567,8 @@ class CreateCheck:
             import sys
             so, se = sys.stdout, sys.stderr
             shim = fsshim.FsShim(run, payload_parent, fault_reads=True,
-                                 read_faults=True, crashes=False)
+                                 read_faults=True, crashes=False,
+                                 short_reads=True, list_faults=True)
             outcome = "returned"
             try:
                 sys.stdout = FaultyOut(run) if g["progress"] else tf.NULL
